@@ -135,4 +135,52 @@ theorem MapWF_copy (dst src : GoMap) (h : MapWF dst) : MapWF (mapCopy dst src) :
   | nil => exact h
   | cons e src ih => rw [List.foldl_cons]; exact ih _ (MapWF_set dst _ _ h)
 
+/-- the error branch's fill: the destination's values win, the source supplies the rest. -/
+theorem mapGet_fill (dst src : GoMap) (q : Key) :
+    mapGet (mapFill dst src) q = match mapGet dst q with | some v => some v | none => mapGet src q := by
+  unfold mapFill
+  induction src generalizing dst with
+  | nil => simp [mapGet_nil]; cases mapGet dst q <;> rfl
+  | cons e src ih =>
+    rw [List.foldl_cons, ih, mapGet_cons]
+    cases hd : mapGet dst e.1 with
+    | none =>
+      simp only [mapGet_set]
+      by_cases hq : q = e.1
+      · subst hq; simp [hd]
+      · simp only [hq, if_false]
+    | some x =>
+      simp only []
+      by_cases hq : q = e.1
+      · subst hq; simp [hd]
+      · simp only [hq, if_false]
+
+theorem MapWF_fill (dst src : GoMap) (h : MapWF dst) : MapWF (mapFill dst src) := by
+  unfold mapFill
+  induction src generalizing dst with
+  | nil => exact h
+  | cons e src ih =>
+    rw [List.foldl_cons]
+    apply ih
+    cases mapGet dst e.1 with
+    | none => exact MapWF_set dst e.1 e.2 h
+    | some x => exact h
+
+theorem mem_mapFill {dst src : GoMap} {e : Key × Option Val} (h : e ∈ mapFill dst src) : e ∈ dst ∨ e ∈ src := by
+  unfold mapFill at h
+  induction src generalizing dst with
+  | nil => exact Or.inl h
+  | cons a src ih =>
+    rw [List.foldl_cons] at h
+    rcases ih h with h1 | h1
+    · cases hg : mapGet dst a.1 with
+      | none =>
+        rw [hg] at h1
+        simp only [mapSet, List.mem_cons, List.mem_filter] at h1
+        rcases h1 with h2 | h2
+        · right; rw [h2]; exact List.mem_cons_self
+        · exact Or.inl h2.1
+      | some x => rw [hg] at h1; exact Or.inl h1
+    · exact Or.inr (List.mem_cons_of_mem _ h1)
+
 end NeoModel.Store
